@@ -20,7 +20,8 @@ func init() {
 			"(R2,R3,R8,R9) the buffer of a request is its own — READ buffer taken under the request's own order id, page of a pipelined WRITE filed under its own order id, no slice of a page kept in long-lived state, pages released only after the reply was written (shared with C18.R2/R5/R3 and C14.R9); " +
 			"(R4-R6) a reply is routed to the caller that issued the request: registered before sent, table under its mutex and routed by the decoded id, one result channel per in-flight request (shared with C03.R3-R5); " +
 			"(R7) in the workers' call cones every READ, WRITE and FSTAT reaches the backing object by exactly one ReadAt/WriteAt/Stat call: none sits in a loop (other than the worker's request loop), none is followed by a second one on any path of the same request, none is started in a goroutine; " +
-			"(R10) the DATA reply carries the bytes that call produced, buf[:n] (shared with C01.R3).",
+			"(R10) the DATA reply carries the bytes that call produced, buf[:n] (shared with C01.R3); " +
+			"(R11) a write that failed inside a frame is latched (shared with C04.R10); (R12) a request on a handle is served by the handler its own type names (shared with C02.R7).",
 		run: runC15,
 		trusted: []string{
 			"go/ssa control-flow graphs; VTA call graph for the workers' cones",
@@ -41,6 +42,11 @@ func runC15(c *Ctx) {
 	c.withOnly("R3", "R8", func() { runC18(c) })
 	c.withOnly("R9", "R9", func() { runC14(c) })
 	c.withOnly("R3", "R10", func() { runC01(c) })
+	// R11 (= C04.R10): a write that failed inside a frame is latched — otherwise the next requests are stored as that
+	// WRITE's data; R12 (= C02.R7): a request on a handle is served by the handler its own type names (a READ must not
+	// reach the writer)
+	checkWriteFailureLatched(c, "R11")
+	c.withOnly("R7", "R12", func() { runC02(c) })
 }
 
 // storeStepName: the instruction is a call on the backing object that the property treats as one atomic step.
